@@ -12,6 +12,9 @@ var (
 	alSpace  = []rune(" \t\n\r")
 	alNonAsc = []rune("éßñçüøλж中文日本語한국어😀🚀𝔘 ​́ ")
 	alPunct  = []rune("!#$%()*+,;=?[]^`{|}~\\")
+	// the edges of XML's Char production (#x20-#xD7FF | #xE000-#xFFFD | #x10000-#x10FFFF) and characters that text
+	// processing tends to special-case: replacement character, object replacement, BOM, NEL, line separator
+	alEdges = []rune{0xD7FF, 0xE000, 0xFFFD, 0xFFFC, 0x10000, 0x10FFFF, 0xFEFF, 0x85, 0x2028, 0x7F, 0xA0}
 )
 
 // GenXMLString draws a string over the XML character repertoire. kind selects the
@@ -43,9 +46,9 @@ func GenXMLString(rng *rand.Rand, kind, maxLen int) string {
 		case 2:
 			al = [][]rune{alSpace, alAscii}[rng.Intn(2)]
 		case 3:
-			al = [][]rune{alNonAsc, alAscii}[rng.Intn(2)]
+			al = [][]rune{alNonAsc, alAscii, alEdges}[rng.Intn(3)]
 		default:
-			al = [][]rune{alAscii, alMarkup, alSpace, alNonAsc, alPunct}[rng.Intn(5)]
+			al = [][]rune{alAscii, alMarkup, alSpace, alNonAsc, alPunct, alEdges}[rng.Intn(6)]
 		}
 		sb.WriteRune(pick(al))
 	}
